@@ -375,5 +375,13 @@ func main() {
 			}
 		}
 	}
+	for _, trait := range []string{"onoff", "light"} {
+		for _, op := range []string{"get", "update"} {
+			for _, c := range groupCases() {
+				name := groupName(trait, op, c)
+				h.Sched(name, -1, -1, groupBody(name, trait, op, c.st, c.members, c.wantErr), hx.StdOracle)
+			}
+		}
+	}
 	h.Run()
 }
